@@ -40,3 +40,16 @@ Check (C09_nonvacuous :
            | MOk m => meval (fun _ => Nil) m = v
            | MErr _ => False
            end).
+
+Check (C09_punctuation_symbols :
+  let is_ident := fun s => beq_bytes s (s2b "a") in
+  let v := Cons (Symbol (s2b "<=")) (Cons (vlist [Symbol (s2b "+"); Symbol (s2b "a"); Symbol (s2b "...")])
+             (Cons (Symbol (s2b "->")) (Symbol (s2b "/")))) in
+  cok v /\
+  spell is_ident (Symbol (s2b "<=")) = [Punct 60 Joint; Punct 61 Alone] /\
+  spell is_ident (Symbol (s2b "...")) = [Punct 46 Joint; Punct 46 Joint; Punct 46 Alone] /\
+  spell is_ident (Symbol (s2b "-")) = [Punct 35 Alone; Lit (LStr (s2b "-") (s2b "-"))] /\
+  match macro_parse (spell is_ident v) with
+  | MOk m => meval (fun _ => Nil) m = v
+  | MErr _ => False
+  end).
